@@ -124,6 +124,11 @@ Fixpoint split_sp_aux (cur : list ascii) (s : string) : list string :=
   end.
 Definition split_sp (s : string) : list string := split_sp_aux [] s.
 
+(** an item of such a list: non-empty, without a blank *)
+Fixpoint str_exists (f : ascii -> bool) (s : string) : bool :=
+  match s with String c r => f c || str_exists f r | EmptyString => false end.
+Definition token (s : string) : Prop := s <> EmptyString /\ str_exists is_space s = false.
+
 Fixpoint all_opt {A} (l : list (option A)) : option (list A) :=
   match l with
   | [] => Some []
@@ -148,8 +153,6 @@ Fixpoint has_nonchar (s : string) : bool :=
       end
   | EmptyString => false
   end.
-Fixpoint str_exists (f : ascii -> bool) (s : string) : bool :=
-  match s with String c r => f c || str_exists f r | EmptyString => false end.
 Definition xml_unrepresentable (s : string) : bool := str_exists byte_forbidden s || has_nonchar s.
 
 (** attribute-value normalisation: literal tab, LF, CR become a space (CR LF one space) *)
